@@ -141,6 +141,13 @@ def onBuf (sub : Buf) (m : Cur α) : Cur (α × Buf) := fun b n =>
   | .err e n' => .err e n'
   | .panic s => .panic s
 
+/-- `if let Ok(v) = m { … }` / `.ok()`: an error of `m` is swallowed (result `(false, d)`), not propagated -/
+def attemptD (m : Cur α) (d : α) : Cur (Bool × α) := fun b n =>
+  match m b n with
+  | .ok a b' n' => .ok (true, a) b' n'
+  | .err _ n' => .ok (false, d) b n'
+  | .panic s => .panic s
+
 /-- the one loop combinator: `body` returns `inl s'` to continue and `inr r` to leave the loop;
 fuel exhaustion is the outcome `panic "hang"` -/
 def loopM (body : σ → Cur (σ ⊕ β)) : Nat → σ → Cur β
@@ -260,6 +267,25 @@ theorem safe_onBuf {B : Nat → Prop} {sub : Buf} {m : Cur α} {Q : (α × Buf) 
   unfold safe onBuf at *
   cases hm : m sub n <;> simp [hm] at h ⊢ <;> exact h
 
+theorem safe_attemptD {B : Nat → Prop} {m : Cur α} {d : α} {Q : (Bool × α) → Buf → Nat → Prop} {b n}
+    (h : safe (fun n' => Q (false, d) b n') m (fun a b' n' => Q (true, a) b' n') b n) :
+    safe B (attemptD m d) Q b n := by
+  unfold safe attemptD at *
+  cases hm : m b n <;> simp [hm] at h ⊢ <;> exact h
+
+theorem safe_weaken_err {E E' : Nat → Prop} {m : Cur α} {Q b n} (h : safe E m Q b n)
+    (he : ∀ k, E k → E' k) : safe E' m Q b n := by
+  unfold safe at *
+  cases hm : m b n <;> simp [hm] at h ⊢
+  · exact h
+  · exact he _ h
+
+/-- `attemptD` with a numeric allocation bound on the swallowed error path -/
+theorem safe_attemptD' {E : Nat → Prop} {B : Nat} {m : Cur α} {d : α} {Q : (Bool × α) → Buf → Nat → Prop} {b n}
+    (hErr : ∀ n', n' ≤ B → Q (false, d) b n')
+    (h : safe (· ≤ B) m (fun a b' n' => Q (true, a) b' n') b n) : safe E (attemptD m d) Q b n :=
+  safe_attemptD (safe_weaken_err h hErr)
+
 theorem safe_ite {B : Nat → Prop} {c : Prop} [Decidable c] {m1 m2 : Cur α} {Q b n}
     (h1 : c → safe B m1 Q b n) (h2 : ¬c → safe B m2 Q b n) : safe B (if c then m1 else m2) Q b n := by
   split
@@ -341,7 +367,7 @@ theorem safe_be32 {B : Nat → Prop} {a : Array UInt8} {i : Nat} {Q b n} (hi : i
   apply safe_pure; apply h; omega
 
 attribute [irreducible] be16 be32 safe Cur.pure Cur.bind bail panicAt alloc remaining restSlice setBuf getBuf getBE getU8 getU16
-  getU24 getU32 getU48 getU64 advance splitTo idx slice sliceLen onBuf loopM getU32s
+  getU24 getU32 getU48 getU64 advance splitTo idx slice sliceLen onBuf attemptD loopM getU32s
 
 /-- `omega` after reducing projections of tuple states -/
 macro "domega" : tactic => `(tactic| first | omega | (dsimp only <;> omega))
